@@ -310,6 +310,64 @@ def body_fast_retry(S, loop, part):
     S.note("lost", lost)
 
 
+def setup_machine(part):
+    return stubs.boot("switches")
+
+
+def teardown_machine(t):
+    stubs.shutdown(t)
+
+
+def body_fast_reports(S, t, part):
+    """After any sequence of valid input reports (full SA: bitmaps and single -L:/ /L: events) MPF's switch states equal the last
+    report of each switch. Real FastNetNeuronCommunicator decoding + report processing on a booted machine's real SwitchController."""
+    from mpf.platforms.fast.communicators.net_neuron import FastNetNeuronCommunicator
+    m = t.machine
+    plat = m.default_platform
+    watched = {"s_no": 1, "s_timed_ev": 4}
+    # FAST numbers its switches with ints: re-key the lookup of the booted (virtual platform) switches accordingly
+    for sw in m.switches.values():
+        sw.hw_switch.number = int(sw.hw_switch.number)
+    m.switch_controller._switch_lookup = {(sw.hw_switch.number, plat): sw for sw in m.switches.values()}
+    plat.switches_initialized = True
+    plat.hw_switch_data = {}
+    plat.new_switch_data = asyncio.Event()
+    c = FastNetNeuronCommunicator.__new__(FastNetNeuronCommunicator)
+    for k, v in dict(received_msg=b'', pause_sending_until='', pause_sending_flag=asyncio.Event(), no_response_waiting=asyncio.Event(),
+                     done_waiting=asyncio.Event(), ignore_decode_errors=True, port_debug=False, machine=m, platform=plat,
+                     log=logging.getLogger("fast")).items():
+        setattr(c, k, v)
+    c.message_processors = {"SA:": c._process_sa, "-L:": c._process_switch_closed, "/L:": c._process_switch_open}
+    last = {name: None for name in watched}
+    n_reports = 0
+    for i in range(part["n"]):
+        kind = part["kinds"][i] if i < len(part.get("kinds", [])) else S.choice("report%d" % i, 5)
+        if kind == 0:
+            bits = {name: (1 if S.bool("sa%d_%s" % (i, name)) else 0) for name in watched}
+            byte0 = sum(bits[name] << num for name, num in watched.items())
+            data = b"SA:0E,%02X00\r" % byte0
+            for name in watched:
+                last[name] = bits[name]
+        else:
+            name = ("s_no", "s_timed_ev")[(kind - 1) // 2]
+            closed = (kind - 1) % 2 == 0
+            data = b"%sL:%02X\r" % (b"-" if closed else b"/", watched[name])
+            last[name] = 1 if closed else 0
+        cut = S.int("cut%d" % i, 0, len(data)) if part.get("split") else len(data)
+        first, second = S.concrete(data[:cut]), S.concrete(data[cut:])
+        with S.untraced():          # all inputs are native values here (the solver chose report kinds, bits and the cut by forking)
+            c.parse_incoming_raw_bytes(first)
+            c.parse_incoming_raw_bytes(second)
+        n_reports += 1
+        t.advance_time_and_run(0.01)
+        for name in watched:
+            if last[name] is not None and m.switches[name].state != last[name]:
+                raise Violation("switch-states-equal-last-report", "FastNetNeuronCommunicator._process_sa" if kind == 0 else "FastNetNeuronCommunicator._process_switch_closed",
+                                "after report %d %r: %s is %s in MPF, the board's last report says %s" % (i, data, name, m.switches[name].state, last[name]))
+    S.note("nontrivial", n_reports >= 2)
+    S.note("reports", n_reports)
+
+
 def custom_checks(tier, seed, deadline):
     """E2: CRC-8 routine, AST -> z3"""
     import random
@@ -422,4 +480,7 @@ def scenarios(tier):
             Scenario("opp_integrity", setup, body_opp_integrity, it, teardown=teardown, part_budget=pb, per_path_timeout=60),
             Scenario("delim_split", setup, body_delim_split, ds, teardown=teardown, part_budget=pb, per_path_timeout=60),
             Scenario("fast_flow", setup, body_fast_flow, fl, teardown=teardown, part_budget=pb, per_path_timeout=60),
+            Scenario("fast_reports", setup_machine, body_fast_reports,
+                     [dict(n=3, kinds=[0]), dict(n=3, kinds=[0], split=True), dict(n=4 if tier == "quick" else 5)],
+                     teardown=teardown_machine, part_budget=pb, per_path_timeout=60),
             Scenario("fast_retry", setup, body_fast_retry, [dict()], teardown=teardown, part_budget=pb, per_path_timeout=60, min_nontrivial=0)]
